@@ -175,8 +175,10 @@ def mk_fault(props, templates, nmenu=fam.FAULT_MENU, g0modes=5, g1modes=5):
                 return True
         gm0, gm1 = conc(g0, g0modes), conc(g1, g1modes)
         slots = [fam.menu_slot(sels[i], i, v + i) for i in range(arity(tt))]
+        # after the guarded yield: a yield that carries no futures at all (None / empty list - what a list
+        # comprehension over an empty collection yields), then one that blocks again
         mid = TaskD("mid", SEQ(Y(0, KEEP("pre", ITEM(0, v + 7))), fam.guard(Y(tt, *slots), gm1),
-                               Y(0, ITEM(1, v + 5))), ret="result" if conc(res, 2) else "return")
+                               Y(11), Y(8), Y(0, ITEM(1, v + 5))), ret="result" if conc(res, 2) else "return")
         sib = fam.chain("sib", 2, conc(ksib, 2), v + 20)
         td = TaskD("root", SEQ(fam.guard(Y(4, TASK(mid), TASK(sib)), gm0), Y(0, ITEM(0, v + 9))))
         return check_program(td, props, nkinds=2, prio=[p0, p1], hash_order=conc(ho, 2),
